@@ -233,6 +233,12 @@ package layer4
 //  - prefetch runs only with the deadline armed;
 //  - the fallback runs with the deadline cleared (the first `next.Handle` is reached either after
 //    the last route matched, where the deadline was cleared at the match, or with no route at all).
+// evald(r): route r's matcher sets have been evaluated on the connection as it is now, i.e. since the
+// last handler chain ran (the handler interface contract leaves all ghost state unspecified, so every
+// handler invocation invalidates every recorded evaluation). The fallback may only run when every
+// route after the last matched one has been evaluated in that sense and none of them matched: a
+// verdict taken before a non-terminal route's handlers changed the stream does not count (C02).
+//@ ghost evald(r *Route) bool
 //@ func (routes RouteList) Compile$1(cx *Connection) (err error)
 //@ requires wfcx(cx) && wf(cx) && !cx.matching && !isnil(next) && logger != nil
 //@ requires[inv] validroutes(routes)
@@ -247,3 +253,9 @@ package layer4
 //@ atcall[C05] Handle 2 lastMatchedRouteIdx >= 0 || !armed(cx.Conn)
 //@ atcall[C02] AnyMatch 1 i > lastMatchedRouteIdx
 //@ atcall[C05] Handle 3 !armed(cx.Conn)
+//@ aftercall[C02] AnyMatch 1 evald(route) == true
+//@ atcall[C02] Handle 3 forall j int :: lastMatchedRouteIdx < j && j < len(routes) ==> evald(routes[j])
+//@ invariant forall j int :: lastMatchedRouteIdx < j && j <= lastNeedsMoreIdx && j < len(routes) && haskey(routesStatus, j) && routesStatus[j] == routeNotMatched ==> evald(routes[j])
+//@ loop 1 invariant forall j int :: lastMatchedRouteIdx < j && j <= rangeindex ==> evald(routes[j])
+//@ loop 3 invariant forall k int :: seen(routesStatus, k) && k > lastMatchedRouteIdx && routesStatus[k] == routeNeedsMore ==> indetermined > 0
+//@ loop 3 invariant 0 <= indetermined && indetermined <= seencount(routesStatus)
